@@ -15,7 +15,7 @@ ENV = dict(os.environ, CARGO_NET_OFFLINE='true', RUSTFLAGS='--cfg decmathlib_rs_
 ALLOWED_AXIOMS = {
     'ClassicalDedekindReals.sig_forall_dec', 'ClassicalDedekindReals.sig_not_dec',
     'FunctionalExtensionality.functional_extensionality_dep', 'Classical_Prop.classic'}
-FORBIDDEN = re.compile(r'\b(Admitted|admit|Axiom|Axioms|Parameter|Parameters|Conjecture|Hypothesis|Variable|Variables|bypass_check|Unset Guard Checking|Unset Positivity Checking|Unset Universe Checking|type-in-type|impredicative-set|Admit Obligations)\b')
+FORBIDDEN = re.compile(r'\b(Admitted|admit|Axiom|Axioms|Parameter|Parameters|Conjecture|Conjectures|bypass_check|Unset Guard Checking|Unset Positivity Checking|Unset Universe Checking|type-in-type|impredicative-set|Admit Obligations)\b')
 
 TRUSTED_BASE = [
     'Coq 8.16.1 kernel; vm_compute for table theorems and finite sweeps; no native_compute',
@@ -82,10 +82,20 @@ def build_driver():
 
 
 def forbidden_scan():
+    """no Axiom/Parameter/Conjecture/Admitted/admit anywhere; Variable/Hypothesis/Context only inside a Section;
+    no switching off of kernel checks"""
     bad = []
+    sec_only = re.compile(r'^\s*(?:Local\s+|Global\s+)?(Variable|Variables|Hypothesis|Hypotheses|Context)\b')
     for f in glob.glob(os.path.join(COQ, '**', '*.v'), recursive=True):
         txt = open(f).read()
         txt = re.sub(r'\(\*.*?\*\)', '', txt, flags=re.S)
+        depth = 0
+        for ln in txt.split('\n'):
+            if re.match(r'^\s*Section\s+\w+\s*\.', ln): depth += 1
+            elif re.match(r'^\s*End\s+\w+\s*\.', ln) and depth > 0: depth -= 1
+            m = sec_only.match(ln)
+            if m and depth == 0:
+                bad.append('%s: %s outside a Section' % (os.path.relpath(f, ROOT), m.group(1)))
         for m in FORBIDDEN.finditer(txt):
             bad.append('%s: %s' % (os.path.relpath(f, ROOT), m.group(0)))
     return bad
@@ -370,8 +380,6 @@ def run_check(pid, tier, seed):
                 rejects.append(d)
             if s['unknown']:
                 rejects.append(dict(kind='BROKEN', case='', got='%d cases with an operation the judge does not know' % s['unknown'], expected='', stream=sname))
-    obligations.append(('correspondence: implementation outputs accepted by the extracted model on every generated case', harness_ok and drv_ok and not rejects, '%d not accepted' % len(rejects)))
-
     # 5. triage
     known = load_known()
     met = collections.Counter()
@@ -382,6 +390,9 @@ def run_check(pid, tier, seed):
             met[k['id']] += 1; continue
         key = (d['kind'], d['case'].split()[0] if d['case'] else '', d['got'].split()[1] if d['kind'] == 'PANIC' and len(d['got'].split()) > 1 else '')
         groups.setdefault(key, []).append(d)
+    n_unl = sum(len(v) for v in groups.values())
+    obligations.append(('correspondence: implementation outputs accepted by the extracted model on every generated case (recorded known findings apart)',
+                        harness_ok and drv_ok and n_unl == 0, '%d not accepted, %d of them recorded known findings' % (len(rejects), len(rejects) - n_unl)))
     for k in known:
         if met[k['id']]:
             known_lines.append('KNOWN-FINDING: property=%s %s (%d cases this run)' % (pid, k['what'], met[k['id']]))
